@@ -165,7 +165,7 @@ prop('C19', [S.rule_field, S.rule_pep479, S.rule_companion, S.rule_commit, S.rul
      'through operations the noValue sentinel plugs.  Refinement of a list/dict model over histories is not decided.',
      {'A10.field': 6, 'A10.pep479': 8, 'A10.companion': 2, 'A10.single': 8, 'A10.commit': 2, 'A10.bounds': 2, 'A10.schema': 60})
 
-prop('C20', [M.rule_a11_offset, M.rule_a11_trim, Z.rule_trim_start],
+prop('C20', [M.rule_a11_offset, M.rule_a11_trim, Z.rule_trim_start, M.rule_a11_parse],
      'Time text: offset sign taken from a signed quantity, hour/minute fields within range and width (interval '
      'analysis), canonical trim removes only trailing zeros, canonical refusals present, time encoders registered in '
      'CER and DER.  Calendar arithmetic and the fraction convention (symmetric between writer and reader) are not decided.',
